@@ -79,6 +79,16 @@ def gen(tier, rng, harness=None, driver=None):
     return lines
 
 
+def extra(res, findings, tier, rng, harness, driver):
+    """LLVM 14 as the reader of printed types: the text llir prints for a generated type (as a parameter of a declaration) and the text llir prints after
+    reading it back must be the same type for LLVM"""
+    from . import refstage, tygen
+    descs = [tygen.gen_ty(rng, rng.randint(0, 4), True) for _ in range(200 if tier == "quick" else 5000)]
+    outs = C.run_lines([harness, "run"], ["ty.text " + d for d in descs], shards=8)
+    texts = [(d, bytes.fromhex(o).decode("latin-1")) for d, o in zip(descs, outs) if o and o not in ("panic", "unknown-op") and all(c in "0123456789abcdef" for c in o)]
+    return refstage.run(res, findings, harness, "C16", texts)
+
+
 def nontrivial(ln, model_out):
     return "(" in ln
 
